@@ -432,4 +432,26 @@ def Obj.prior : Obj V K → Except Err (Obj V K)
 
 end
 
+/-! accessors of a joint distribution (`get_density`, `_get_fixed_variables`, `dim`) -/
+
+/-- `JointDistribution._get_fixed_variables()`: names of the likelihoods and evaluated densities, in density order -/
+def jointFixed {V K : Type} (ds : List (Dens V K)) : List (Option Name) :=
+  ds.filterMap (fun d => match d with | .dist .. => none | .lik F _ _ _ => some (some F.name) | .eval n _ _ => some n)
+
+/-- `JointDistribution.get_density(name)`: the first density carrying the name, ValueError if none -/
+def getDensity {V K : Type} (ds : List (Dens V K)) (n : Name) : Except Err (Dens V K) :=
+  match ds.find? (fun d => d.name == some n) with
+  | some d => .ok d
+  | none => .error .value
+
+/-- `.dim`: list of the distributions' dimensions (joint), their sum (stacked view), the prior's
+    (`MultipleLikelihoodPosterior.dim = self.prior.dim = self._distributions[0].dim`: IndexError once everything is fixed) -/
+def flavorDim {V K : Type} (fl : Flavor) (ds : List (Dens V K)) : Except Err (List Nat) :=
+  match fl with
+  | .plain => .ok (jointDims ds)
+  | .stacked => .ok [(jointDims ds).foldl (· + ·) 0]
+  | .mlp => match jointDims ds with
+    | [] => .error .index
+    | d :: _ => .ok [d]
+
 end CuqiVerif.C01
